@@ -554,7 +554,22 @@ func buildReplay(rep *FuncReport, o *Obligation) *ReplayResult {
 	call := fd.Name.Name + "(" + strings.Join(callArgs, ", ") + ")"
 	var check string
 	isSafety := o.Kind != "ensures"
-	if !isSafety {
+	if isSafety && (strings.HasPrefix(o.Kind, "inv-") || o.Kind == "unwind" || o.Kind == "decreases" || o.Kind == "call") {
+		// an internal proof step failed: run the real function on the model and test every translatable postcondition
+		var parts []string
+		for _, e := range rep.Contract.Ensures {
+			g.fail = ""
+			s := g.expr(e.Expr)
+			if g.fail == "" {
+				parts = append(parts, "("+s+")")
+			}
+		}
+		g.fail = ""
+		if len(parts) > 0 {
+			isSafety = false
+			check = strings.Join(parts, " && ")
+		}
+	} else if !isSafety {
 		// find the clause
 		var cl *Clause
 		for _, e := range rep.Contract.Ensures {
